@@ -18,13 +18,16 @@ pub enum Kind {
     Bilin,   // a*x + b     (two parameters, exactly representable)
     /// 1e-4 * x: a weak basis function (tiny singular value that is NOT a rank defect)
     LinSmall,
+    /// 3e-10 * x: a basis column nine orders of magnitude below the others (badly column-scaled, still far
+    /// above the default threshold in double precision; its magnitude is not a power of two)
+    LinTiny,
     /// 1/(1+(a (x - 4k))^2): a comb of well separated peaks, a well-conditioned basis of any size
     LorentzAt(u16),
 }
 impl Kind {
     pub fn arity(self) -> usize {
         match self {
-            Kind::One | Kind::Lin | Kind::LinSmall => 0,
+            Kind::One | Kind::Lin | Kind::LinSmall | Kind::LinTiny => 0,
             Kind::Exp | Kind::Lorentz | Kind::Quad | Kind::LorentzAt(_) => 1,
             Kind::Gauss | Kind::Sinus | Kind::Bilin => 2,
         }
@@ -41,6 +44,7 @@ impl Kind {
             Kind::Bilin => "bilin",
             Kind::LorentzAt(_) => "lorentzat",
             Kind::LinSmall => "linsmall",
+            Kind::LinTiny => "lintiny",
         }
     }
     pub fn parse(s: &str) -> Kind {
@@ -94,6 +98,7 @@ pub fn kernel_raw<T: Sc>(kind: Kind, x: &DVector<T>, a: &[T]) -> DVector<T> {
         Kind::One => x.map(|_| one),
         Kind::Lin => x.clone(),
         Kind::LinSmall => x.map(|x| x * T::of(1e-4)),
+        Kind::LinTiny => x.map(|x| x * T::of(3e-10)),
         Kind::Exp => x.map(|x| num_traits::Float::exp(-x / a[0])),
         Kind::Gauss => x.map(|x| num_traits::Float::exp(-(x - a[0]) * (x - a[0]) / (two * a[1] * a[1]))),
         Kind::Sinus => x.map(|x| num_traits::Float::sin(a[0] * x + a[1])),
